@@ -917,7 +917,13 @@ class SgzReader(object):
         -------
         header_array : numpy.ndarray of int32, shape (tracecount)
         """
-        self.read_variant_headers(include_padding=True, tracefields=[segyio.tracefield.TraceField(tracefield)])
+        tracefield = segyio.tracefield.TraceField(tracefield)
+        template_value = self.segy_traceheader_template[tracefield]
+        if not isinstance(template_value, FileOffset):
+            # Header word which is constant over the file (or absent): every trace carries the template value
+            n_values = self.tracecount if self.is_2d else self.n_ilines * self.n_xlines
+            return np.full(n_values, template_value, dtype=np.int32)
+        self.read_variant_headers(include_padding=True, tracefields=[tracefield])
         return self.variant_headers[tracefield]
 
     def get_tracefield_values(self, tracefield):
